@@ -250,7 +250,7 @@ func (c *Client) JoinPresence(ctx context.Context, p stanza.Presence, s *xmpp.Se
 		session: s,
 
 		join:   make(chan joinCtx, 1),
-		depart: make(chan struct{}),
+		depart: make(chan struct{}, 1),
 	}
 	err := channel.JoinPresence(ctx, p, opt...)
 	return channel, err
